@@ -83,7 +83,7 @@ class Pi(schemes.interface.inverted_index_sse.InvertedIndexSSE):
         k1, k2, k3 = K.k1, K.k2, K.k3
         N = get_total_size(database)
         l = math.ceil(math.log2(N))
-        s = math.ceil(l * self.config.param_actual_storage_level_ratio)
+        s = max(1, math.ceil(l * self.config.param_actual_storage_level_ratio))  # at least one level (N = 1: l = 0)
         p = math.ceil(l / s)
         levels = [l - i * p for i in range(0, s)]
         if self.config.param_L > 1:
